@@ -79,6 +79,7 @@ pub enum Inp {
     Enc, // a field element offered as encoding
     F,   // a field element
     ES,  // element + scalar
+    EncEncB, // two field elements offered as encodings (lazily allocated operands) + boolean
 }
 
 pub struct Gadget {
@@ -304,6 +305,50 @@ pub fn gadgets() -> Vec<Gadget> {
         let cond = c == 1;
         chk_enforce(&cs, alloc_el(&cs, x, m).and_then(|va| va.conditional_enforce_not_equal(&alloc_el(&cs, y, AllocationMode::Witness)?, &Boolean::new_witness(cs.clone(), || Ok(cond))?)), !cond || x != y)
     });
+    // Two-operand gadgets on operands that are both still *pending encodings* (allocated from Fq,
+    // nothing forced). Natively both operands must first decode; the gadget's result is then
+    // used as an element (forced), so the system is satisfiable iff both encodings are valid.
+    gd!("conditionally_select (both operands lazily allocated from encodings), result forced", EncEncB, W, |env, a, b, c, m| {
+        let cs = new_cs(prove_mode());
+        let (sa, sb) = (&env.encs[a].1, &env.encs[b].1);
+        let cond = c == 1;
+        let na = Encoding(refmodel::fld::to32(sa)).vartime_decompress().ok();
+        let nb = Encoding(refmodel::fld::to32(sb)).vartime_decompress().ok();
+        let native = match (na, nb) {
+            (Some(x), Some(y)) => Some(if cond { x } else { y }),
+            _ => None,
+        };
+        let r = (|| {
+            let va = <ElementVar as AllocVar<Fq, Fq>>::new_variable(cs.clone(), || Ok(fq(sa)), m)?;
+            let vb = <ElementVar as AllocVar<Fq, Fq>>::new_variable(cs.clone(), || Ok(fq(sb)), m)?;
+            let v = ElementVar::conditionally_select(&Boolean::new_witness(cs.clone(), || Ok(cond))?, &va, &vb)?;
+            let _ = v.negate()?;
+            let _ = v.compress_to_field()?;
+            Ok(v)
+        })();
+        chk_el(&cs, r, native)
+    });
+    gd!("a + &b / is_eq (both operands lazily allocated from encodings)", EncEncB, W, |env, a, b, c, m| {
+        let cs = new_cs(prove_mode());
+        let (sa, sb) = (&env.encs[a].1, &env.encs[b].1);
+        let na = Encoding(refmodel::fld::to32(sa)).vartime_decompress().ok();
+        let nb = Encoding(refmodel::fld::to32(sb)).vartime_decompress().ok();
+        let native = match (na, nb) {
+            (Some(x), Some(y)) => Some(x + y),
+            _ => None,
+        };
+        let r = (|| {
+            let va = <ElementVar as AllocVar<Fq, Fq>>::new_variable(cs.clone(), || Ok(fq(sa)), m)?;
+            let vb = <ElementVar as AllocVar<Fq, Fq>>::new_variable(cs.clone(), || Ok(fq(sb)), m)?;
+            if c == 1 {
+                let _ = va.is_eq(&vb)?;
+            }
+            let v = va + &vb;
+            let _ = v.compress_to_field()?;
+            Ok(v)
+        })();
+        chk_el(&cs, r, native)
+    });
     gd!("conditionally_select", EEB, W, |env, a, b, c, m| {
         let cs = new_cs(prove_mode());
         let (x, y) = (env.els[a].1, env.els[b].1);
@@ -434,6 +479,7 @@ pub fn describe(env: &Env, g: &Gadget, a: usize, b: usize, c: usize, m: Allocati
         Inp::E | Inp::ES => (json!(env.els[a].0), Value::Null),
         Inp::EE | Inp::EEB => (json!(env.els[a].0), json!(env.els[b].0)),
         Inp::Enc => (json!({"name": env.encs[a].0, "s": env.encs[a].1.to_string()}), Value::Null),
+        Inp::EncEncB => (json!({"name": env.encs[a].0, "s": env.encs[a].1.to_string()}), json!({"name": env.encs[b].0, "s": env.encs[b].1.to_string()})),
         Inp::F => (json!({"name": env.fqs[a].0, "x": env.fqs[a].1.to_string()}), Value::Null),
     };
     json!({"gadget": g.name, "mode": mode_name(m), "a": ia, "b": ib, "c": c, "ia": a, "ib": b})
@@ -467,6 +513,25 @@ fn grid(ctx: &Arc<Ctx>, env: &Env) {
                 Inp::EEB => {
                     for a in 0..env.els.len() {
                         for &b in &pair_b {
+                            for c in 0..2 {
+                                cases.push((gi, mi, a, b, c));
+                            }
+                        }
+                    }
+                }
+                Inp::EncEncB => {
+                    // second operand: every encoding in the thorough tier; in the quick tier every
+                    // third one plus the first valid and the first invalid encoding
+                    let mut bs: Vec<usize> = if ctx.quick() { (0..env.encs.len()).step_by(3).collect() } else { (0..env.encs.len()).collect() };
+                    for want in [true, false] {
+                        if let Some(i) = env.encs.iter().position(|e| e.2 == want) {
+                            if !bs.contains(&i) {
+                                bs.push(i);
+                            }
+                        }
+                    }
+                    for a in 0..env.encs.len() {
+                        for &b in &bs {
                             for c in 0..2 {
                                 cases.push((gi, mi, a, b, c));
                             }
